@@ -2,7 +2,8 @@
 
 Loaded by the Python interpreter at start-up because the harness puts this directory first on the PYTHONPATH of
 the child process only.  It does nothing unless the child's environment has BFG9000_VERIF=1.  Nothing under
-/repo is touched: the wrappers sit on builtins.open (write modes), os.remove, os.utime, os.makedirs.
+/repo is touched: the wrappers sit on builtins.open (write modes), os.remove, os.utime, os.makedirs, os.replace,
+os.rename.
 
 Environment:
   BFG9000_VERIF=1            guard; without it this module is inert
@@ -17,8 +18,9 @@ Environment:
   BFG9000_VERIF_PROBE=file   append the path of the imported bfg9000 package at exit (which code ran)
 
 A mutation is one of: open (of a file for writing: creates / truncates), close (of such a file: the content
-reaches the file), remove, utime, makedirs.  Content written between open and close is treated as atomic at
-the close; a fault placed before the close leaves the file empty (torn writes are not modelled).
+reaches the file), remove, utime, makedirs, rename (os.replace / os.rename: atomic; the record carries "dst").
+Content written between open and close is treated as atomic at the close; a fault placed before the close
+leaves the file empty (torn writes are not modelled).
 """
 import os
 import sys
@@ -37,6 +39,7 @@ if os.environ.get('BFG9000_VERIF') == '1':
     _fault_n, _fault_kind = (-1, None)
     _real_open = builtins.open
     _real_remove, _real_utime, _real_makedirs = os.remove, os.utime, os.makedirs
+    _real_replace, _real_rename = os.replace, os.rename
     _count = [0]
     _armed = [None]      # decided lazily: sys.argv is not set yet when sitecustomize runs
 
@@ -199,6 +202,18 @@ if os.environ.get('BFG9000_VERIF') == '1':
                 _in_makedirs[0] = False
         return _point('makedirs', rel, do, existed=existed)
 
+    def _mk_rename(real):
+        def _ren(src, dst, *args, **kwargs):
+            # atomic replacement of dst by src: ONE mutation point (a fault before it leaves both files as they were)
+            if kwargs or args or isinstance(src, int) or isinstance(dst, int):
+                return real(src, dst, *args, **kwargs)
+            rs, rd = _rel(src), _rel(dst)
+            if rs is None and rd is None:
+                return real(src, dst)
+            return _point('rename', rs if rs is not None else os.fspath(src), lambda: real(src, dst),
+                          dst=rd if rd is not None else os.fspath(dst), existed=os.path.lexists(dst))
+        return _ren
+
     builtins.open = _open
     import io
     io.open = _open
@@ -206,6 +221,8 @@ if os.environ.get('BFG9000_VERIF') == '1':
     os.unlink = _remove
     os.utime = _utime
     os.makedirs = _makedirs
+    os.replace = _mk_rename(_real_replace)
+    os.rename = _mk_rename(_real_rename)
 
     def _at_exit():
         _is_armed()          # a process that performed no mutation still leaves its start record
